@@ -150,11 +150,19 @@ static compact_theta_sketch crafted_theta(Rng& r, uint64_t seed, unsigned bits, 
   std::vector<uint64_t> e;
   uint64_t prev = 0;
   const uint64_t maxdelta = bits == 63 ? MAXT : ((1ULL << bits) - 1);
+  // exactly the requested width: one delta has its top bit set (more where they fit), the others stay small
+  // enough that n entries always fit below 2^63
+  const uint64_t top = 1ULL << (bits - 1);
+  const uint64_t smallcap = std::min<uint64_t>(maxdelta, 1ULL << 40);
+  const uint64_t slack = 1ULL << 48;                       // > 70 * smallcap
+  const unsigned big_at = static_cast<unsigned>(r.below(n));
   for (unsigned i = 0; i < n; ++i) {
-    // at least one delta uses the top bit of the width; keep the sum below 2^63
-    uint64_t d = (i == 0 || r.chance(0.2)) ? ((1ULL << (bits - 1)) | (r.next() & (maxdelta >> 1))) : (1 + r.next() % maxdelta);
-    if (d == 0) d = 1;
-    if (prev + d >= MAXT - 1 || prev + d < prev) break;
+    uint64_t d;
+    const bool room_for_big = prev < MAXT - 2 - slack && MAXT - 2 - slack - prev >= 2 * top - 1;
+    if (i == big_at || (i > big_at && r.chance(0.2) && room_for_big)) {
+      const uint64_t span = std::min<uint64_t>(top, MAXT - 2 - slack - prev - top + 1);   // room above the top bit
+      d = top + (span > 1 ? r.next() % span : 0);
+    } else d = 1 + r.next() % smallcap;
     prev += d; e.push_back(prev);
   }
   if (e.empty()) e.push_back(1);
